@@ -84,13 +84,13 @@ def is_panic_check(c):
         and bool(PANIC_PAT.search(c.get('description', '')))
 
 
-def playback(crate, harness, prefix='', timeout=900, want=None):
+def playback(crate, harness, prefix='', timeout=900, want=None, extra=None):
     """Re-run one failing harness with concrete playback; return (values, raw text).
     values = list of byte lists in kani::any() order, taken from the test Kani prints for the
     failing check whose description contains `want` (else the first failing assertion)."""
-    cmd = ['cargo', 'kani', '-Z', 'function-contracts', '-Z', 'stubbing', '-Z', 'concrete-playback',
+    cmd = ['cargo', 'kani', '-Z', 'function-contracts', '-Z', 'stubbing', '-Z', 'unstable-options', '-Z', 'concrete-playback',
            '--concrete-playback=print', '--no-assertion-reach-checks', '--exact', '--harness', prefix + harness,
-           '--target-dir', os.path.join(crate, 'target_playback_%d' % os.getpid())]
+           '--target-dir', os.path.join(crate, 'target_playback_%d' % os.getpid())] + (extra or [])
     try:
         p = subprocess.run(cmd, cwd=crate, env=env_offline(), capture_output=True, text=True, timeout=timeout)
     except subprocess.TimeoutExpired:
